@@ -266,6 +266,45 @@ func c07GenShape(r *vfRng, maxOld, maxFullWals, maxInc, maxIncWals, maxT int) c0
 	return sh
 }
 
+// c07DirectedShape builds a fixed shape: `olds` is a string of F (full, no WAL of its own) and
+// i (incremental, one WAL), then the newest full with fw WALs, then incrementals with the given
+// numbers of WALs.
+func c07DirectedShape(olds string, fw int, incs []int) c07Shape {
+	var sh c07Shape
+	t, nat := 0, 0
+	term := uint64(1)
+	add := func(full bool, nw int) {
+		nat++
+		d := c07Dir{nat: nat, term: term}
+		if full {
+			t++
+			d.dbT = t
+		}
+		for i := 0; i < nw; i++ {
+			t++
+			d.wals = append(d.wals, t)
+		}
+		d.index = uint64(10 * t)
+		sh.dirs = append(sh.dirs, d)
+	}
+	for _, c := range olds {
+		if c == 'F' {
+			add(true, 0)
+		} else {
+			add(false, 1)
+		}
+	}
+	add(true, fw)
+	desc := olds + fmt.Sprintf("|F%d|", fw)
+	for _, nw := range incs {
+		add(false, nw)
+		desc += fmt.Sprintf("I%d", nw)
+	}
+	sh.newest = t
+	sh.desc = desc
+	return sh
+}
+
 type c07Env struct {
 	t      *testing.T
 	art    *c07Art
@@ -839,7 +878,15 @@ func TestVerifC07(t *testing.T) {
 	var allOps, allImpl [][]string
 	for si := 0; si < nShapes; si++ {
 		var sh c07Shape
-		if vfThorough() {
+		// every run starts with the remove-only shapes (newest is a full snapshot with nothing newer:
+		// the older ones are just deleted) and one of each other kind
+		directed := []c07Shape{
+			c07DirectedShape("Fi", 0, nil), c07DirectedShape("F", 0, nil), c07DirectedShape("FiFi", 0, nil),
+			c07DirectedShape("Fi", 1, []int{2}), c07DirectedShape("", 1, []int{1}), c07DirectedShape("", 0, nil),
+		}
+		if si < len(directed) {
+			sh = directed[si]
+		} else if vfThorough() {
 			sh = c07GenShape(r, 3, 3, 4, 3, maxT)
 		} else {
 			sh = c07GenShape(r, 2, 1, 2, 2, maxT)
@@ -877,7 +924,59 @@ func TestVerifC07(t *testing.T) {
 			t.Fatalf("shape %s: %v", sh.desc, err)
 		}
 		if after := e.dumpRealNoPlan(); !strings.Contains(sh.desc, "+tmp") && after != e.dumpPristine(pristine) {
-			t.Fatalf("plan capture modified the store: %s vs %s", after, e.dumpPristine(pristine))
+			if p != nil || perr != "" {
+				t.Fatalf("plan capture modified the store: %s vs %s", after, e.dumpPristine(pristine))
+			}
+			// reapInternal touched the store although no plan reached the disk
+			// (plan_written_before_mutation); show what a crash between / inside its removals leaves
+			rep.Fail("reap-mutates-without-plan", fmt.Sprintf("shape %s: directories removed although no REAP_PLAN was written: before %s after %s", sh.desc, e.dumpPristine(pristine), after),
+				map[string]interface{}{"shape": sh.desc})
+			var gone []string
+			ents, _ := os.ReadDir(pristine)
+			for _, en := range ents {
+				if en.IsDir() && !fileExistsC07(filepath.Join(e.root, en.Name())) {
+					gone = append(gone, en.Name())
+				}
+			}
+			sort.Strings(gone)
+			for cut := 1; cut < 2*len(gone); cut++ {
+				k, partial := cut/2, cut%2 == 1
+				restore()
+				what := ""
+				for i, g := range gone {
+					if i < k {
+						os.RemoveAll(filepath.Join(e.root, g))
+						what += " " + g + ":removed"
+					} else if i == k && partial {
+						os.Remove(metaPath(filepath.Join(e.root, g)))
+						what += " " + g + ":meta.json-removed"
+					}
+				}
+				var problems []string
+				if s2, err := NewStore(e.root); err != nil {
+					problems = append(problems, "NewStore: "+err.Error())
+				} else {
+					s2.fatalFn = nil
+					if metas, err := s2.ListAll(); err != nil {
+						problems = append(problems, "ListAll: "+err.Error())
+					} else {
+						for _, m := range metas {
+							if _, rc, err := s2.Open(m.ID); err != nil {
+								problems = append(problems, "Open("+m.ID+"): "+err.Error())
+							} else {
+								rc.Close()
+							}
+						}
+					}
+					s2.Close()
+				}
+				if len(problems) > 0 {
+					rep.Fail("catalog-broken-after-crash-in-unplanned-reap", fmt.Sprintf("shape %s, reap crashing with [%s ] and no plan to resume, restart: %s", sh.desc, what, strings.Join(problems, "; ")),
+						map[string]interface{}{"shape": sh.desc, "crash": what})
+				}
+			}
+			restore()
+			continue
 		}
 		restore()
 		vb := 0
